@@ -38,6 +38,9 @@ pub struct Plan {
     /// scheduling decisions, consumed cyclically at every seam:
     /// 0 = the running thread continues, b > 0 = runnable[(b-1) % len] runs next
     pub sched: Vec<u8>,
+    /// allocations made by the library inside a display are scheduling points too
+    #[serde(default)]
+    pub alloc_seams: bool,
 }
 
 /// Which fault kinds a run may use (swarm testing: varied per run).
@@ -66,14 +69,24 @@ fn gen_spec(r: &mut Prng, for_unit: bool) -> Spec {
     s
 }
 
-fn gen_what(r: &mut Prng, types: &[usize]) -> (What, Spec) {
+fn gen_what(r: &mut Prng, types: &[usize], pool: &mut Vec<crate::subjects::Amt>) -> (What, Spec) {
+    // values recur within a run: memos and caches are keyed by values
+    let mut amount_of = |r: &mut Prng| {
+        if !pool.is_empty() && r.chance(2, 5) {
+            *r.pick(pool)
+        } else {
+            let a = amt::gen(r);
+            pool.push(a);
+            a
+        }
+    };
     let ty = *r.pick(types);
     let unit = r.below((TABLE[ty].n_units)());
     match r.below(10) {
         0 => (What::Unit { ty, unit }, gen_spec(r, true)),
         1 => {
             let pair = r.below(RATES.len());
-            let mut per = amt::gen(r);
+            let mut per = amount_of(r);
             if RATES[pair].per_is_unitless && amt::is_one(amt::to_amount(per)) {
                 per = amt::simple();
             }
@@ -87,13 +100,13 @@ fn gen_what(r: &mut Prng, types: &[usize]) -> (What, Spec) {
                 }
             }
             (
-                What::Rate { pair, term_unit: r.below(16), term: amt::gen(r), per_unit: r.below(16), per },
+                What::Rate { pair, term_unit: r.below(16), term: amount_of(r), per_unit: r.below(16), per },
                 Spec::default(),
             )
         }
         _ => {
             let mut spec = gen_spec(r, false);
-            let amount = amt::gen(r);
+            let amount = amount_of(r);
             // "+" on negative zero is outside what the property speaks about
             if amt::is_neg_zero(amt::to_amount(amount)) {
                 spec.plus = false;
@@ -104,6 +117,60 @@ fn gen_what(r: &mut Prng, types: &[usize]) -> (What, Spec) {
 }
 
 pub fn generate(seed: u64) -> Plan {
+    generate_with(seed, false)
+}
+
+/// `lite`: small amounts, widths and precisions, two operations per thread and
+/// at least two threads — for executions under an interpreter (Miri), where
+/// formatting a 300-digit number costs seconds and the point is the interleaving.
+pub fn generate_with(seed: u64, lite: bool) -> Plan {
+    let mut plan = generate_full(seed, lite);
+    if lite {
+        for t in plan.threads.iter_mut() {
+            t.truncate(2);
+            for op in t.iter_mut() {
+                lite_op(&mut op.what, &mut op.spec, seed);
+                if let Some((_, w, s)) = op.nested.as_mut() {
+                    lite_op(w, s, seed);
+                }
+            }
+        }
+    }
+    plan
+}
+
+fn lite_op(what: &mut What, spec: &mut Spec, seed: u64) {
+    use crate::subjects::Amt;
+    let small = |a: &mut Amt, salt: u64| {
+        let mut r = Prng::new(seed ^ salt);
+        let v = (r.below(4001) as i64 - 2000, r.below(3) as u8);
+        *a = match *a {
+            Amt::F(_) => Amt::F((v.0 as f64 / [1.0, 10.0, 100.0][v.1 as usize]).to_bits()),
+            Amt::D(..) => Amt::D(v.0, v.1),
+        };
+    };
+    match what {
+        What::Qty { amount, unit, .. } => small(amount, *unit as u64 + 1),
+        What::Rate { term, per, .. } => {
+            small(term, 11);
+            if !amt::is_one(amt::to_amount(*per)) {
+                small(per, 12);
+                if amt::to_amount(*per) == amt::to_amount(Amt::D(0, 0)) || amt::is_one(amt::to_amount(*per)) {
+                    *per = amt::simple();
+                }
+            }
+        }
+        What::Unit { .. } => {}
+    }
+    spec.width = spec.width.map(|w| w % 13);
+    spec.prec = spec.prec.map(|p| p % 5);
+    // contention wants like operations: most displays take the precision path
+    if spec.prec.is_none() && matches!(what, What::Qty { .. }) && (seed ^ spec.width.unwrap_or(7) as u64) % 3 != 0 {
+        spec.prec = Some((seed % 4) as usize);
+    }
+}
+
+fn generate_full(seed: u64, lite: bool) -> Plan {
     let mut r = Prng::new(seed);
     let swarm = Swarm {
         sink_error: r.chance(1, 2),
@@ -114,13 +181,14 @@ pub fn generate(seed: u64) -> Plan {
     // a random subset of the types per run
     let k = 1 + r.below(4);
     let types: Vec<usize> = (0..k).map(|_| r.below(TABLE.len())).collect();
-    let n_threads = 1 + r.below(4);
+    let n_threads = if lite { 2 + r.below(2) } else { 1 + r.below(4) };
     let mut threads = Vec::new();
+    let mut pool = Vec::new();
     for _ in 0..n_threads {
         let n_ops = 1 + r.below(5);
         let mut ops = Vec::new();
         for _ in 0..n_ops {
-            let (what, spec) = gen_what(&mut r, &types);
+            let (what, spec) = gen_what(&mut r, &types, &mut pool);
             let fault = if swarm.sink_error && r.chance(1, 4) {
                 Some((r.below(5), FaultKind::Error))
             } else if swarm.sink_panic && r.chance(1, 5) {
@@ -129,7 +197,7 @@ pub fn generate(seed: u64) -> Plan {
                 None
             };
             let nested = if swarm.nested && r.chance(1, 3) {
-                let (w, s) = gen_what(&mut r, &types);
+                let (w, s) = gen_what(&mut r, &types, &mut pool);
                 Some((r.below(4), w, s))
             } else {
                 None
@@ -142,5 +210,6 @@ pub fn generate(seed: u64) -> Plan {
     let sched = (0..n_sched)
         .map(|_| if !swarm.switches || r.chance(1, 2) { 0 } else { 1 + r.below(8) as u8 })
         .collect();
-    Plan { seed, backend: amt::BACKEND.to_string(), threads, sched }
+    let alloc_seams = n_threads > 1 && r.chance(1, 2);
+    Plan { seed, backend: amt::BACKEND.to_string(), threads, sched, alloc_seams }
 }
